@@ -35,6 +35,15 @@ impl FdCapture {
         }
         std::fs::read(&self.path).unwrap_or_default()
     }
+    /// Ends the redirection without reading the target (for targets like /dev/full).
+    pub fn restore(self) {
+        std::io::stdout().flush().ok();
+        std::io::stderr().flush().ok();
+        unsafe {
+            libc::dup2(self.saved, self.fd);
+            libc::close(self.saved);
+        }
+    }
     /// Bytes captured so far (the capture stays active).
     pub fn peek(&self) -> Vec<u8> {
         std::io::stdout().flush().ok();
